@@ -370,6 +370,13 @@ func cmdCheck(prop, tier string) (rc int) {
 		}
 	}
 	trusted := trustedBase(prop)
+	// lemmas decided in the exact scaled-integer model: what was enumerated, status, back end, time
+	var exactModel []map[string]interface{}
+	for _, o := range obls {
+		if o.Kind == "lemma" && strings.HasSuffix(o.Name, "-exact") && o.Res != nil {
+			exactModel = append(exactModel, map[string]interface{}{"obligation": o.Name, "enumeration": o.Note, "status": o.Res.Status, "backend": o.Res.Backend, "time_s": o.Res.TimeS})
+		}
+	}
 	ev := &Evidence{PropertyID: prop, Tier: tier, Seed: seed(), Level: "proof", WallS: time.Since(t0).Seconds(), Violations: nviol,
 		Assumptions: append(trusted, lemAssume...),
 		Coverage: map[string]interface{}{
@@ -391,6 +398,7 @@ func cmdCheck(prop, tier string) (rc int) {
 			"undischarged":             undischarged,
 			"bounded":                  bounded,
 			"abstracted":               sortedSet(absList),
+			"exact_model_lemmas":       exactModel,
 			"generator_errors":         s.errs,
 			"integer_semantics":        "index integers: mathematical Int with a no-overflow obligation at every + - *; sample/fixed-width integers: SMT bit-vectors of the Go width; floats: IEEE-754 FloatingPoint theory in kernels, standard model over reals in Length/ChannelLength/Frequency",
 		}}
